@@ -30,7 +30,7 @@ CHECKS = {
     "C07": ("exploration",
             "property-based testing (Hypothesis): reference flat byte memory + protocol monitors over generated read/write/burst histories, geometries and slave ack schedules",
             "Each case builds a fresh adapter (down/up/auto converter, write-back cache incl. wider/narrower slave and reverse, remapper, CSR bridge, SRAM classic and B4 bursts, four chains) in front of a hardware memory slave whose ack is schedule driven (0-latency capable), runs a generated history of 5..60 operations (partial/empty selects, gaps, held cyc, colliding cache sets, wrap/incrementing/constant bursts with master wait states) and compares every read on its selected lanes, plus a final read-back of the whole window, with a flat byte memory; exactly-one-termination, slave-side request stability, remapped addresses against the documented formula and CSR-side strobes are checked as well.",
-            "Trusted: Migen's simulator, harness master/slave/monitor, the byte-memory model. Known findings excluded by construction and replayed: cache cold tag-0 hit, SRAM wrap burst longer than its wrap length. CSR bridge driven with full or empty selects only.",
+            "Trusted: Migen's simulator, harness master/slave/monitor, the byte-memory model. Known finding excluded by construction and replayed: SRAM wrap burst longer than its wrap length. The cache starts cold over non-zero slave content (valid bits added by repair ee4434a, witness replayed). CSR bridge driven with full or empty selects only.",
             "DESIGN.md section 4 / C07"),
     "C17": ("exploration",
             "exhaustive table extraction by simulation + plain-Python invariants over all symbols/pairs; property-based testing (Hypothesis) of the multi-word and stream wrappers against the extracted table model",
